@@ -1,7 +1,1269 @@
-//! C12 correspondence harness (stub, being built)
+//! C12 correspondence harness: arithmetic, aggregation and boolean kernels of arrow-arith,
+//! and `arrow_buffer::i256` directly.
+//!
+//! Case lines (see lean/ArrowModel/C12/Driver.lean for the model side):
+//!   C12 i256 <method> <alo> <ahi> [<blo> <bhi> | <exp>]      limbs via from_parts / to_parts
+//!   C12 i256str =<text>                                      i256::from_string
+//!   C12 arith <op> <ltype> <lhs> <rtype> <rhs>               numeric::{add,…}; operands
+//!        `A<off>:<slots>` (array sliced at <off>), `N<off>:…` (null buffer forced), `S:<slot>` (Scalar);
+//!        a slot is `v` or `n:<garbage>` (null with that physical value underneath)
+//!   C12 neg|neg_wrapping <type> <arr>
+//!   C12 agg sum|sumc|min|max|band|bor|bxor <type> <arr>
+//!   C12 bool and_kleene|or_kleene|and|or|and_not <B> <B> ; C12 bool not <B> ; C12 bagg and|or|min|max <B>
+//!        `B<off>:<value bits>:<validity bits|->`
+//! Answers: `<type> <slots>` (null = `n`), `ERR:<class>`, `PANIC`, scalars as decimal.
+use arrow_arith::{aggregate, boolean, numeric};
+use arrow_array::types::*;
+use arrow_array::*;
+use arrow_buffer::{BooleanBuffer, IntervalDayTime, IntervalMonthDayNano, NullBuffer, ScalarBuffer, i256};
+use arrow_schema::{ArrowError, DataType, IntervalUnit, TimeUnit};
+use std::sync::Arc;
 use vcommon::*;
+
+// ------------------------------------------------------------------ big integers (independent of i256's own code)
+
+/// decimal text → (low, high) two's complement limbs (wraps modulo 2^256)
+fn parse_big(s: &str) -> (u128, i128) {
+    let (neg, digits) = match s.strip_prefix('-') {
+        Some(r) => (true, r),
+        None => (false, s),
+    };
+    let mut l = [0u64; 4];
+    for c in digits.bytes() {
+        let mut carry = (c - b'0') as u128;
+        for x in l.iter_mut() {
+            let v = (*x as u128) * 10 + carry;
+            *x = v as u64;
+            carry = v >> 64;
+        }
+    }
+    if neg {
+        let mut carry = 1u128;
+        for x in l.iter_mut() {
+            let v = (!*x) as u128 + carry;
+            *x = v as u64;
+            carry = v >> 64;
+        }
+    }
+    ((l[0] as u128) | ((l[1] as u128) << 64), ((l[2] as u128) | ((l[3] as u128) << 64)) as i128)
+}
+
+fn show_big(low: u128, high: i128) -> String {
+    let mut l = [low as u64, (low >> 64) as u64, high as u128 as u64, ((high as u128) >> 64) as u64];
+    let neg = high < 0;
+    if neg {
+        let mut carry = 1u128;
+        for x in l.iter_mut() {
+            let v = (!*x) as u128 + carry;
+            *x = v as u64;
+            carry = v >> 64;
+        }
+    }
+    let mut parts: Vec<u64> = vec![];
+    while l.iter().any(|x| *x != 0) {
+        let mut rem = 0u128;
+        for x in l.iter_mut().rev() {
+            let v = (rem << 64) | (*x as u128);
+            *x = (v / 1_000_000_000_000_000_000) as u64;
+            rem = v % 1_000_000_000_000_000_000;
+        }
+        parts.push(rem as u64);
+    }
+    if parts.is_empty() {
+        return "0".into();
+    }
+    let mut s = String::new();
+    if neg {
+        s.push('-');
+    }
+    s.push_str(&parts.last().unwrap().to_string());
+    for p in parts.iter().rev().skip(1) {
+        s.push_str(&format!("{:018}", p));
+    }
+    s
+}
+
+fn big_i256(s: &str) -> i256 {
+    let (l, h) = parse_big(s);
+    i256::from_parts(l, h)
+}
+fn show_i256v(v: i256) -> String {
+    let (l, h) = v.to_parts();
+    show_big(l, h)
+}
+fn show_parts(v: i256) -> String {
+    let (l, h) = v.to_parts();
+    format!("{} {}", l, h)
+}
+
+// ------------------------------------------------------------------ types
+
+#[derive(Clone, Copy, PartialEq, Debug)]
+enum Ty {
+    I8,
+    I16,
+    I32,
+    I64,
+    U8,
+    U16,
+    U32,
+    U64,
+    F32,
+    F64,
+    Dec(u16, u8, i8),
+    Date32,
+    Date64,
+    Ts(u8),
+    Dur(u8),
+    Iym,
+    Idt,
+    Imdn,
+}
+
+const UNITS: [&str; 4] = ["s", "ms", "us", "ns"];
+fn unit_idx(u: &TimeUnit) -> u8 {
+    match u {
+        TimeUnit::Second => 0,
+        TimeUnit::Millisecond => 1,
+        TimeUnit::Microsecond => 2,
+        TimeUnit::Nanosecond => 3,
+    }
+}
+
+fn parse_ty(s: &str) -> Ty {
+    let f: Vec<&str> = s.split(':').collect();
+    match f[0] {
+        "i8" => Ty::I8,
+        "i16" => Ty::I16,
+        "i32" => Ty::I32,
+        "i64" => Ty::I64,
+        "u8" => Ty::U8,
+        "u16" => Ty::U16,
+        "u32" => Ty::U32,
+        "u64" => Ty::U64,
+        "f32" => Ty::F32,
+        "f64" => Ty::F64,
+        "date32" => Ty::Date32,
+        "date64" => Ty::Date64,
+        "ts" => Ty::Ts(UNITS.iter().position(|u| *u == f[1]).unwrap() as u8),
+        "dur" => Ty::Dur(UNITS.iter().position(|u| *u == f[1]).unwrap() as u8),
+        "iym" => Ty::Iym,
+        "idt" => Ty::Idt,
+        "imdn" => Ty::Imdn,
+        d => Ty::Dec(d[1..].parse().unwrap(), f[1].parse().unwrap(), f[2].parse().unwrap()),
+    }
+}
+
+fn show_ty(t: &Ty) -> String {
+    match t {
+        Ty::I8 => "i8".into(),
+        Ty::I16 => "i16".into(),
+        Ty::I32 => "i32".into(),
+        Ty::I64 => "i64".into(),
+        Ty::U8 => "u8".into(),
+        Ty::U16 => "u16".into(),
+        Ty::U32 => "u32".into(),
+        Ty::U64 => "u64".into(),
+        Ty::F32 => "f32".into(),
+        Ty::F64 => "f64".into(),
+        Ty::Dec(b, p, s) => format!("d{}:{}:{}", b, p, s),
+        Ty::Date32 => "date32".into(),
+        Ty::Date64 => "date64".into(),
+        Ty::Ts(u) => format!("ts:{}", UNITS[*u as usize]),
+        Ty::Dur(u) => format!("dur:{}", UNITS[*u as usize]),
+        Ty::Iym => "iym".into(),
+        Ty::Idt => "idt".into(),
+        Ty::Imdn => "imdn".into(),
+    }
+}
+
+fn ty_of_datatype(d: &DataType) -> Option<Ty> {
+    Some(match d {
+        DataType::Int8 => Ty::I8,
+        DataType::Int16 => Ty::I16,
+        DataType::Int32 => Ty::I32,
+        DataType::Int64 => Ty::I64,
+        DataType::UInt8 => Ty::U8,
+        DataType::UInt16 => Ty::U16,
+        DataType::UInt32 => Ty::U32,
+        DataType::UInt64 => Ty::U64,
+        DataType::Float32 => Ty::F32,
+        DataType::Float64 => Ty::F64,
+        DataType::Decimal32(p, s) => Ty::Dec(32, *p, *s),
+        DataType::Decimal64(p, s) => Ty::Dec(64, *p, *s),
+        DataType::Decimal128(p, s) => Ty::Dec(128, *p, *s),
+        DataType::Decimal256(p, s) => Ty::Dec(256, *p, *s),
+        DataType::Date32 => Ty::Date32,
+        DataType::Date64 => Ty::Date64,
+        DataType::Timestamp(u, None) => Ty::Ts(unit_idx(u)),
+        DataType::Duration(u) => Ty::Dur(unit_idx(u)),
+        DataType::Interval(IntervalUnit::YearMonth) => Ty::Iym,
+        DataType::Interval(IntervalUnit::DayTime) => Ty::Idt,
+        DataType::Interval(IntervalUnit::MonthDayNano) => Ty::Imdn,
+        _ => return None,
+    })
+}
+
+// ------------------------------------------------------------------ native values ↔ text
+
+trait Val: Sized + Copy {
+    fn parse(s: &str) -> Self;
+    fn show(&self) -> String;
+}
+macro_rules! val_int {
+    ($($t:ty),*) => {$(
+        impl Val for $t {
+            fn parse(s: &str) -> Self { s.parse().expect("int item") }
+            fn show(&self) -> String { self.to_string() }
+        }
+    )*};
+}
+val_int!(i8, i16, i32, i64, i128, u8, u16, u32, u64);
+impl Val for i256 {
+    fn parse(s: &str) -> Self {
+        big_i256(s)
+    }
+    fn show(&self) -> String {
+        show_i256v(*self)
+    }
+}
+impl Val for f32 {
+    fn parse(s: &str) -> Self {
+        f32::from_bits(s.parse().unwrap())
+    }
+    fn show(&self) -> String {
+        self.to_bits().to_string()
+    }
+}
+impl Val for f64 {
+    fn parse(s: &str) -> Self {
+        f64::from_bits(s.parse().unwrap())
+    }
+    fn show(&self) -> String {
+        self.to_bits().to_string()
+    }
+}
+impl Val for IntervalDayTime {
+    fn parse(s: &str) -> Self {
+        let f: Vec<&str> = s.split('/').collect();
+        IntervalDayTime::new(f[0].parse().unwrap(), f[1].parse().unwrap())
+    }
+    fn show(&self) -> String {
+        format!("{}/{}", self.days, self.milliseconds)
+    }
+}
+impl Val for IntervalMonthDayNano {
+    fn parse(s: &str) -> Self {
+        let f: Vec<&str> = s.split('/').collect();
+        IntervalMonthDayNano::new(f[0].parse().unwrap(), f[1].parse().unwrap(), f[2].parse().unwrap())
+    }
+    fn show(&self) -> String {
+        format!("{}/{}/{}", self.months, self.days, self.nanoseconds)
+    }
+}
+
+// ------------------------------------------------------------------ operands
+
+struct Operand {
+    scalar: bool,
+    force_nulls: bool,
+    off: usize,
+    slots: Vec<(String, bool)>, // (text of the physical value, valid)
+}
+
+fn parse_operand(s: &str) -> Operand {
+    let (head, body) = s.split_once(':').expect("operand");
+    let slots: Vec<(String, bool)> = if body == "-" {
+        vec![]
+    } else {
+        body.split(',')
+            .map(|x| match x.strip_prefix("n:") {
+                Some(g) => (g.to_string(), false),
+                None => (x.to_string(), true),
+            })
+            .collect()
+    };
+    let kind = head.as_bytes()[0];
+    Operand {
+        scalar: kind == b'S',
+        force_nulls: kind == b'N',
+        off: if kind == b'S' { 0 } else { head[1..].parse().unwrap() },
+        slots,
+    }
+}
+
+/// physical values and validity including the `off` leading slots that are sliced away
+fn physical<N: Val>(o: &Operand) -> (Vec<N>, Option<NullBuffer>) {
+    let n = o.slots.len();
+    let mut vals: Vec<N> = Vec::with_capacity(o.off + n);
+    let mut valid: Vec<bool> = Vec::with_capacity(o.off + n);
+    for i in 0..o.off {
+        // leading slots: copies of the payload (or anything), alternating validity
+        if n > 0 {
+            vals.push(N::parse(&o.slots[i % n].0));
+        } else {
+            vals.push(N::parse(if std::any::type_name::<N>().contains("Interval") {
+                if std::any::type_name::<N>().contains("DayTime") { "0/0" } else { "0/0/0" }
+            } else {
+                "0"
+            }));
+        }
+        valid.push(i % 2 == 0);
+    }
+    for (t, v) in &o.slots {
+        vals.push(N::parse(t));
+        valid.push(*v);
+    }
+    let has_nulls = o.force_nulls || o.slots.iter().any(|s| !s.1);
+    (vals, if has_nulls { Some(NullBuffer::from(valid)) } else { None })
+}
+
+fn build_prim<T: ArrowPrimitiveType>(o: &Operand, dt: Option<DataType>) -> ArrayRef
+where
+    T::Native: Val,
+{
+    let (vals, nulls) = physical::<T::Native>(o);
+    let mut a = PrimitiveArray::<T>::new(ScalarBuffer::from(vals), nulls);
+    if let Some(dt) = dt {
+        a = a.with_data_type(dt);
+    }
+    let a = a.slice(o.off, o.slots.len());
+    Arc::new(a)
+}
+
+fn build(ty: &Ty, o: &Operand) -> ArrayRef {
+    match ty {
+        Ty::I8 => build_prim::<Int8Type>(o, None),
+        Ty::I16 => build_prim::<Int16Type>(o, None),
+        Ty::I32 => build_prim::<Int32Type>(o, None),
+        Ty::I64 => build_prim::<Int64Type>(o, None),
+        Ty::U8 => build_prim::<UInt8Type>(o, None),
+        Ty::U16 => build_prim::<UInt16Type>(o, None),
+        Ty::U32 => build_prim::<UInt32Type>(o, None),
+        Ty::U64 => build_prim::<UInt64Type>(o, None),
+        Ty::F32 => build_prim::<Float32Type>(o, None),
+        Ty::F64 => build_prim::<Float64Type>(o, None),
+        Ty::Dec(32, p, s) => build_prim::<Decimal32Type>(o, Some(DataType::Decimal32(*p, *s))),
+        Ty::Dec(64, p, s) => build_prim::<Decimal64Type>(o, Some(DataType::Decimal64(*p, *s))),
+        Ty::Dec(128, p, s) => build_prim::<Decimal128Type>(o, Some(DataType::Decimal128(*p, *s))),
+        Ty::Dec(_, p, s) => build_prim::<Decimal256Type>(o, Some(DataType::Decimal256(*p, *s))),
+        Ty::Date32 => build_prim::<Date32Type>(o, None),
+        Ty::Date64 => build_prim::<Date64Type>(o, None),
+        Ty::Ts(0) => build_prim::<TimestampSecondType>(o, None),
+        Ty::Ts(1) => build_prim::<TimestampMillisecondType>(o, None),
+        Ty::Ts(2) => build_prim::<TimestampMicrosecondType>(o, None),
+        Ty::Ts(_) => build_prim::<TimestampNanosecondType>(o, None),
+        Ty::Dur(0) => build_prim::<DurationSecondType>(o, None),
+        Ty::Dur(1) => build_prim::<DurationMillisecondType>(o, None),
+        Ty::Dur(2) => build_prim::<DurationMicrosecondType>(o, None),
+        Ty::Dur(_) => build_prim::<DurationNanosecondType>(o, None),
+        Ty::Iym => build_prim::<IntervalYearMonthType>(o, None),
+        Ty::Idt => build_prim::<IntervalDayTimeType>(o, None),
+        Ty::Imdn => build_prim::<IntervalMonthDayNanoType>(o, None),
+    }
+}
+
+fn show_prim<T: ArrowPrimitiveType>(a: &dyn Array) -> String
+where
+    T::Native: Val,
+{
+    let a = a.as_any().downcast_ref::<PrimitiveArray<T>>().expect("downcast");
+    if a.is_empty() {
+        return "-".into();
+    }
+    (0..a.len()).map(|i| if a.is_null(i) { "n".to_string() } else { a.value(i).show() }).collect::<Vec<_>>().join(",")
+}
+
+fn show_array(a: &ArrayRef) -> String {
+    let Some(ty) = ty_of_datatype(a.data_type()) else {
+        return format!("ERR:unexpected-type");
+    };
+    let a = a.as_ref();
+    let body = match ty {
+        Ty::I8 => show_prim::<Int8Type>(a),
+        Ty::I16 => show_prim::<Int16Type>(a),
+        Ty::I32 => show_prim::<Int32Type>(a),
+        Ty::I64 => show_prim::<Int64Type>(a),
+        Ty::U8 => show_prim::<UInt8Type>(a),
+        Ty::U16 => show_prim::<UInt16Type>(a),
+        Ty::U32 => show_prim::<UInt32Type>(a),
+        Ty::U64 => show_prim::<UInt64Type>(a),
+        Ty::F32 => show_prim::<Float32Type>(a),
+        Ty::F64 => show_prim::<Float64Type>(a),
+        Ty::Dec(32, _, _) => show_prim::<Decimal32Type>(a),
+        Ty::Dec(64, _, _) => show_prim::<Decimal64Type>(a),
+        Ty::Dec(128, _, _) => show_prim::<Decimal128Type>(a),
+        Ty::Dec(_, _, _) => show_prim::<Decimal256Type>(a),
+        Ty::Date32 => show_prim::<Date32Type>(a),
+        Ty::Date64 => show_prim::<Date64Type>(a),
+        Ty::Ts(0) => show_prim::<TimestampSecondType>(a),
+        Ty::Ts(1) => show_prim::<TimestampMillisecondType>(a),
+        Ty::Ts(2) => show_prim::<TimestampMicrosecondType>(a),
+        Ty::Ts(_) => show_prim::<TimestampNanosecondType>(a),
+        Ty::Dur(0) => show_prim::<DurationSecondType>(a),
+        Ty::Dur(1) => show_prim::<DurationMillisecondType>(a),
+        Ty::Dur(2) => show_prim::<DurationMicrosecondType>(a),
+        Ty::Dur(_) => show_prim::<DurationNanosecondType>(a),
+        Ty::Iym => show_prim::<IntervalYearMonthType>(a),
+        Ty::Idt => show_prim::<IntervalDayTimeType>(a),
+        Ty::Imdn => show_prim::<IntervalMonthDayNanoType>(a),
+    };
+    format!("{} {}", show_ty(&ty), body)
+}
+
+fn show_err(e: &ArrowError) -> String {
+    match e {
+        ArrowError::ArithmeticOverflow(_) => "ERR:overflow",
+        ArrowError::DivideByZero => "ERR:divzero",
+        ArrowError::InvalidArgumentError(_) => "ERR:invalid-arg",
+        ArrowError::ComputeError(_) => "ERR:compute",
+        _ => "ERR:other",
+    }
+    .to_string()
+}
+
+fn show_res(r: Result<ArrayRef, ArrowError>) -> String {
+    match r {
+        Ok(a) => show_array(&a),
+        Err(e) => show_err(&e),
+    }
+}
+
+// ------------------------------------------------------------------ aggregates
+
+fn opt<T: Val>(o: Option<T>) -> String {
+    match o {
+        Some(v) => v.show(),
+        None => "none".into(),
+    }
+}
+
+fn agg_num<T: ArrowNumericType>(f: &str, a: &ArrayRef) -> String
+where
+    T::Native: Val,
+{
+    let a = a.as_any().downcast_ref::<PrimitiveArray<T>>().unwrap();
+    match f {
+        "sum" => opt(aggregate::sum(a)),
+        "sumc" => match aggregate::sum_checked(a) {
+            Ok(o) => opt(o),
+            Err(e) => show_err(&e),
+        },
+        "min" => opt(aggregate::min(a)),
+        "max" => opt(aggregate::max(a)),
+        _ => "bad-op".into(),
+    }
+}
+
+fn agg_bits<T: ArrowNumericType>(f: &str, a: &ArrayRef) -> String
+where
+    T::Native: Val
+        + std::ops::BitAnd<Output = T::Native>
+        + std::ops::BitOr<Output = T::Native>
+        + std::ops::BitXor<Output = T::Native>
+        + ArrowNativeTypeOp,
+{
+    let p = a.as_any().downcast_ref::<PrimitiveArray<T>>().unwrap();
+    match f {
+        "band" => opt(aggregate::bit_and(p)),
+        "bor" => opt(aggregate::bit_or(p)),
+        "bxor" => opt(aggregate::bit_xor(p)),
+        _ => agg_num::<T>(f, a),
+    }
+}
+
+fn run_agg(f: &str, ty: &Ty, a: &ArrayRef) -> String {
+    match ty {
+        Ty::I8 => agg_bits::<Int8Type>(f, a),
+        Ty::I16 => agg_bits::<Int16Type>(f, a),
+        Ty::I32 => agg_bits::<Int32Type>(f, a),
+        Ty::I64 => agg_bits::<Int64Type>(f, a),
+        Ty::U8 => agg_bits::<UInt8Type>(f, a),
+        Ty::U16 => agg_bits::<UInt16Type>(f, a),
+        Ty::U32 => agg_bits::<UInt32Type>(f, a),
+        Ty::U64 => agg_bits::<UInt64Type>(f, a),
+        Ty::F32 => agg_num::<Float32Type>(f, a),
+        Ty::F64 => agg_num::<Float64Type>(f, a),
+        Ty::Dec(32, _, _) => agg_bits::<Decimal32Type>(f, a),
+        Ty::Dec(64, _, _) => agg_bits::<Decimal64Type>(f, a),
+        Ty::Dec(128, _, _) => agg_bits::<Decimal128Type>(f, a),
+        Ty::Dec(_, _, _) => agg_bits::<Decimal256Type>(f, a),
+        Ty::Date32 => agg_num::<Date32Type>(f, a),
+        Ty::Date64 => agg_num::<Date64Type>(f, a),
+        Ty::Dur(0) => agg_num::<DurationSecondType>(f, a),
+        Ty::Dur(_) => agg_num::<DurationNanosecondType>(f, a),
+        Ty::Ts(_) => agg_num::<TimestampNanosecondType>(f, a),
+        _ => "bad-op".into(),
+    }
+}
+
+// ------------------------------------------------------------------ booleans
+
+/// `B<off>:<values>:<validity|->`
+fn parse_bool(s: &str) -> BooleanArray {
+    let f: Vec<&str> = s.split(':').collect();
+    let off: usize = f[0][1..].parse().unwrap();
+    let vals = parse_bits(f[1]);
+    let n = vals.len();
+    let mut v: Vec<bool> = (0..off).map(|i| i % 3 != 0).collect();
+    v.extend_from_slice(&vals);
+    let nulls = if f[2] == "-" {
+        None
+    } else {
+        let mut m: Vec<bool> = (0..off).map(|i| i % 2 == 0).collect();
+        m.extend(parse_bits(f[2]));
+        Some(NullBuffer::from(m))
+    };
+    BooleanArray::new(BooleanBuffer::from(v), nulls).slice(off, n)
+}
+
+fn show_bool(a: &BooleanArray) -> String {
+    if a.is_empty() {
+        return "-".into();
+    }
+    (0..a.len()).map(|i| if a.is_null(i) { 'n' } else if a.value(i) { '1' } else { '0' }).collect()
+}
+
+// ------------------------------------------------------------------ run one case
+
+fn run_i256(t: &[&str]) -> String {
+    let part = |lo: &str, hi: &str| i256::from_parts(lo.parse::<u128>().unwrap(), hi.parse::<i128>().unwrap());
+    let o = |x: Option<i256>| x.map(show_parts).unwrap_or("none".into());
+    let m = t[2];
+    if m == "fromi128" {
+        let v: i128 = t[3].parse().unwrap();
+        return guarded(|| show_parts(i256::from_i128(v)));
+    }
+    let a = part(t[3], t[4]);
+    match m {
+        "cpow" | "wpow" => {
+            let e: u32 = t[5].parse().unwrap();
+            guarded(move || if m == "cpow" { o(a.checked_pow(e)) } else { show_parts(a.wrapping_pow(e)) })
+        }
+        "wneg" => guarded(move || show_parts(a.wrapping_neg())),
+        "cneg" => guarded(move || o(a.checked_neg())),
+        "wabs" => guarded(move || show_parts(a.wrapping_abs())),
+        "cabs" => guarded(move || o(a.checked_abs())),
+        "toi128" => guarded(move || a.to_i128().map(|v| v.to_string()).unwrap_or("none".into())),
+        "tostr" => guarded(move || a.to_string()),
+        _ => {
+            let b = part(t[5], t[6]);
+            guarded(move || match m {
+                "wadd" => show_parts(a.wrapping_add(b)),
+                "wsub" => show_parts(a.wrapping_sub(b)),
+                "wmul" => show_parts(a.wrapping_mul(b)),
+                "wdiv" => show_parts(a.wrapping_div(b)),
+                "wrem" => show_parts(a.wrapping_rem(b)),
+                "cadd" => o(a.checked_add(b)),
+                "csub" => o(a.checked_sub(b)),
+                "cmul" => o(a.checked_mul(b)),
+                "cdiv" => o(a.checked_div(b)),
+                "crem" => o(a.checked_rem(b)),
+                "cmp" => match a.cmp(&b) {
+                    std::cmp::Ordering::Less => "lt".into(),
+                    std::cmp::Ordering::Equal => "eq".into(),
+                    std::cmp::Ordering::Greater => "gt".into(),
+                },
+                _ => "bad-op".into(),
+            })
+        }
+    }
+}
+
+fn datum(a: &ArrayRef, scalar: bool) -> Box<dyn Datum + '_> {
+    if scalar { Box::new(Scalar::new(a.clone())) } else { Box::new(a.clone()) }
+}
+
+fn run_case(line: &str) -> String {
+    let t: Vec<&str> = line.split(' ').collect();
+    assert_eq!(t[0], "C12");
+    match t[1] {
+        "i256" => run_i256(&t),
+        "i256str" => {
+            let s = t[2][1..].to_string();
+            guarded(move || i256::from_string(&s).map(show_parts).unwrap_or("none".into()))
+        }
+        "arith" => {
+            let (op, lt, l, rt, r) = (t[2], parse_ty(t[3]), parse_operand(t[4]), parse_ty(t[5]), parse_operand(t[6]));
+            guarded(move || {
+                let la = build(&lt, &l);
+                let ra = build(&rt, &r);
+                let ld = datum(&la, l.scalar);
+                let rd = datum(&ra, r.scalar);
+                let res = match op {
+                    "add" => numeric::add(ld.as_ref(), rd.as_ref()),
+                    "sub" => numeric::sub(ld.as_ref(), rd.as_ref()),
+                    "mul" => numeric::mul(ld.as_ref(), rd.as_ref()),
+                    "div" => numeric::div(ld.as_ref(), rd.as_ref()),
+                    "rem" => numeric::rem(ld.as_ref(), rd.as_ref()),
+                    "add_wrapping" => numeric::add_wrapping(ld.as_ref(), rd.as_ref()),
+                    "sub_wrapping" => numeric::sub_wrapping(ld.as_ref(), rd.as_ref()),
+                    "mul_wrapping" => numeric::mul_wrapping(ld.as_ref(), rd.as_ref()),
+                    _ => return "bad-op".into(),
+                };
+                show_res(res)
+            })
+        }
+        "neg" | "neg_wrapping" => {
+            let (ty, a) = (parse_ty(t[2]), parse_operand(t[3]));
+            let w = t[1] == "neg_wrapping";
+            guarded(move || {
+                let arr = build(&ty, &a);
+                show_res(if w { numeric::neg_wrapping(arr.as_ref()) } else { numeric::neg(arr.as_ref()) })
+            })
+        }
+        "agg" => {
+            let (f, ty, a) = (t[2], parse_ty(t[3]), parse_operand(t[4]));
+            guarded(move || {
+                let arr = build(&ty, &a);
+                run_agg(f, &ty, &arr)
+            })
+        }
+        "bool" => {
+            let op = t[2];
+            if op == "not" {
+                let a = t[3].to_string();
+                return guarded(move || match boolean::not(&parse_bool(&a)) {
+                    Ok(r) => show_bool(&r),
+                    Err(e) => show_err(&e),
+                });
+            }
+            let (l, r) = (t[3].to_string(), t[4].to_string());
+            guarded(move || {
+                let (l, r) = (parse_bool(&l), parse_bool(&r));
+                let res = match op {
+                    "and_kleene" => boolean::and_kleene(&l, &r),
+                    "or_kleene" => boolean::or_kleene(&l, &r),
+                    "and" => boolean::and(&l, &r),
+                    "or" => boolean::or(&l, &r),
+                    "and_not" => boolean::and_not(&l, &r),
+                    _ => return "bad-op".into(),
+                };
+                match res {
+                    Ok(r) => show_bool(&r),
+                    Err(e) => show_err(&e),
+                }
+            })
+        }
+        "bagg" => {
+            let (f, a) = (t[2], t[3].to_string());
+            guarded(move || {
+                let a = parse_bool(&a);
+                let r = match f {
+                    "and" => aggregate::bool_and(&a),
+                    "or" => aggregate::bool_or(&a),
+                    "min" => aggregate::min_boolean(&a),
+                    "max" => aggregate::max_boolean(&a),
+                    _ => return "bad-op".into(),
+                };
+                match r {
+                    Some(true) => "1".into(),
+                    Some(false) => "0".into(),
+                    None => "none".into(),
+                }
+            })
+        }
+        _ => "bad-op".into(),
+    }
+}
+
+// ------------------------------------------------------------------ generation
+
+const LENS: [usize; 22] = [0, 1, 1, 2, 2, 3, 3, 4, 5, 7, 8, 9, 15, 16, 17, 31, 33, 63, 64, 65, 127, 129];
+
+fn gen_len(rng: &mut Rng) -> usize {
+    if rng.chance(1, 40) { 128 + rng.usize(3) } else { *rng.pick(&LENS) }
+}
+
+/// (min, max) of the physical type as i128 (256-bit handled separately)
+fn bounds(ty: &Ty) -> (i128, i128) {
+    match ty {
+        Ty::I8 => (i8::MIN as i128, i8::MAX as i128),
+        Ty::I16 => (i16::MIN as i128, i16::MAX as i128),
+        Ty::I32 | Ty::Date32 | Ty::Iym | Ty::Dec(32, _, _) => (i32::MIN as i128, i32::MAX as i128),
+        Ty::I64 | Ty::Date64 | Ty::Ts(_) | Ty::Dur(_) | Ty::Dec(64, _, _) => (i64::MIN as i128, i64::MAX as i128),
+        Ty::U8 => (0, u8::MAX as i128),
+        Ty::U16 => (0, u16::MAX as i128),
+        Ty::U32 | Ty::F32 => (0, u32::MAX as i128),
+        Ty::U64 | Ty::F64 => (0, u64::MAX as i128),
+        _ => (i128::MIN, i128::MAX),
+    }
+}
+
+fn rand_i128(rng: &mut Rng) -> i128 {
+    (((rng.next_u64() as u128) << 64) | rng.next_u64() as u128) as i128
+}
+
+/// one integer of the type; mode 0 = small, 1 = mostly small, 2 = boundary biased
+fn gen_int(rng: &mut Rng, ty: &Ty, mode: u8) -> String {
+    if let Ty::Dec(256, _, _) = ty {
+        return gen_i256_text(rng, mode);
+    }
+    let (lo, hi) = bounds(ty);
+    let small = |rng: &mut Rng| -> i128 {
+        let v = rng.range(-20, 20) as i128;
+        v.clamp(lo, hi)
+    };
+    let boundary = |rng: &mut Rng| -> i128 {
+        match rng.below(12) {
+            0 => lo,
+            1 => lo.saturating_add(1),
+            2 => hi,
+            3 => hi - 1,
+            4 => 0i128.clamp(lo, hi),
+            5 => (-1i128).clamp(lo, hi),
+            6 => 1,
+            7 => hi / 2 + 1,
+            8 => lo / 2,
+            9 => lo / 2 - if lo < 0 { 1 } else { 0 },
+            10 => {
+                // power of ten / two near the middle
+                let k = rng.below(39) as u32;
+                10i128.checked_pow(k).unwrap_or(1).clamp(lo, hi) * if lo < 0 && rng.bool() { -1 } else { 1 }
+            }
+            _ => {
+                let r = rand_i128(rng);
+                if lo == i128::MIN { r } else { lo + (r as u128 % ((hi - lo) as u128 + 1)) as i128 }
+            }
+        }
+    };
+    let v = match mode {
+        0 => small(rng),
+        1 => if rng.chance(1, 6) { boundary(rng) } else { small(rng) },
+        _ => if rng.chance(1, 5) { small(rng) } else { boundary(rng) },
+    };
+    v.to_string()
+}
+
+fn gen_i256(rng: &mut Rng, mode: u8) -> i256 {
+    let b = |rng: &mut Rng| -> i256 {
+        match rng.below(16) {
+            0 => i256::MIN,
+            1 => i256::from_parts(1, i128::MIN),
+            2 => i256::MAX,
+            3 => i256::from_parts(u128::MAX - 1, i128::MAX),
+            4 => i256::ZERO,
+            5 => i256::MINUS_ONE,
+            6 => i256::ONE,
+            7 => i256::from_parts(u128::MAX, 0),              // 2^128 - 1
+            8 => i256::from_parts(0, 1),                      // 2^128
+            9 => i256::from_parts(0, -1),                     // -2^128
+            10 => i256::from_parts(1u128 << 127, 0),          // 2^127
+            11 => i256::from_parts(u128::MAX << 127, -1),     // -2^127
+            12 => i256::from_parts(1u128 << 64, 0),
+            13 => i256::from_parts(u128::MAX, i128::MAX >> rng.below(127) as u32),
+            14 => i256::from_parts(rng.next_u64() as u128, if rng.bool() { 0 } else { -1 }),
+            _ => i256::from_parts(rand_i128(rng) as u128, rand_i128(rng) >> (rng.below(128) as u32)),
+        }
+    };
+    match mode {
+        0 => i256::from_i128(rng.range(-20, 20) as i128),
+        1 => if rng.chance(1, 6) { b(rng) } else { i256::from_i128(rng.range(-20, 20) as i128) },
+        _ => if rng.chance(1, 6) { i256::from_i128(rng.range(-20, 20) as i128) } else { b(rng) },
+    }
+}
+
+fn gen_i256_text(rng: &mut Rng, mode: u8) -> String {
+    show_i256v(gen_i256(rng, mode))
+}
+
+fn gen_item(rng: &mut Rng, ty: &Ty, mode: u8) -> String {
+    match ty {
+        Ty::Idt => format!("{}/{}", gen_int(rng, &Ty::I32, mode), gen_int(rng, &Ty::I32, mode)),
+        Ty::Imdn => format!("{}/{}/{}", gen_int(rng, &Ty::I32, mode), gen_int(rng, &Ty::I32, mode), gen_int(rng, &Ty::I64, mode)),
+        Ty::F32 | Ty::F64 => {
+            // bit patterns: zeros, infinities, NaNs with payloads, subnormals, random
+            let bits = if *ty == Ty::F32 { 32 } else { 64 };
+            let top: u64 = if bits == 32 { u32::MAX as u64 } else { u64::MAX };
+            let sign = 1u64 << (bits - 1);
+            let exp_all = if bits == 32 { 0x7f80_0000u64 } else { 0x7ff0_0000_0000_0000u64 };
+            let v = match rng.below(10) {
+                0 => 0,
+                1 => sign,
+                2 => exp_all,
+                3 => exp_all | sign,
+                4 => top,
+                5 => top >> 1,
+                6 => exp_all | 1 | if rng.bool() { sign } else { 0 },
+                7 => 1 | if rng.bool() { sign } else { 0 },
+                _ => rng.next_u64() & top,
+            };
+            v.to_string()
+        }
+        _ => gen_int(rng, ty, mode),
+    }
+}
+
+/// operand text; `nullp`: 0 = no nulls, 1 = some, 2 = all null, 3 = all valid but buffer forced
+fn gen_operand(rng: &mut Rng, ty: &Ty, len: usize, mode: u8, nullp: u8, gmode: u8) -> String {
+    let nullp = if nullp == 255 { draw_nullp(rng) } else { nullp };
+    let off = if rng.chance(1, 3) { *rng.pick(&[1usize, 3, 7, 8, 9, 63, 64, 65]) } else { 0 };
+    let mut slots = vec![];
+    let density = 1 + rng.below(6);
+    for _ in 0..len {
+        let null = match nullp {
+            1 => rng.chance(1, density + 1),
+            2 => true,
+            _ => false,
+        };
+        if null {
+            // garbage under the null: boundary-biased so that it would overflow / divide by zero if used
+            slots.push(format!("n:{}", gen_item(rng, ty, gmode)));
+        } else {
+            slots.push(gen_item(rng, ty, mode));
+        }
+    }
+    let kind = if nullp == 3 { 'N' } else { 'A' };
+    format!("{}{}:{}", kind, off, if slots.is_empty() { "-".to_string() } else { slots.join(",") })
+}
+
+fn gen_scalar(rng: &mut Rng, ty: &Ty, mode: u8) -> String {
+    if rng.chance(1, 12) { format!("S:n:{}", gen_item(rng, ty, 2)) } else { format!("S:{}", gen_item(rng, ty, mode)) }
+}
+
+fn gen_dec(rng: &mut Rng, bits: u16) -> Ty {
+    let maxp: i64 = match bits {
+        32 => 9,
+        64 => 18,
+        128 => 38,
+        _ => 76,
+    };
+    let p = if rng.chance(1, 3) { maxp } else { rng.range(1, maxp) };
+    let s = if rng.chance(1, 12) { rng.range(-6, -1) } else if rng.chance(1, 4) { p } else { rng.range(0, p) };
+    Ty::Dec(bits, p as u8, s as i8)
+}
+
+/// a decimal value inside the declared precision (or, sometimes, any physical value)
+fn gen_dec_item(rng: &mut Rng, ty: &Ty, mode: u8) -> String {
+    let Ty::Dec(bits, p, _) = ty else { unreachable!() };
+    if mode == 2 && rng.chance(1, 3) {
+        return gen_int(rng, ty, 2);
+    }
+    // up to p digits
+    let nd = if mode == 0 { 1 + rng.below(2) } else if rng.chance(1, 2) { *p as u64 } else { 1 + rng.below(*p as u64) };
+    let mut s = String::new();
+    for i in 0..nd {
+        let d = if mode != 0 && rng.chance(1, 2) { 9 } else { rng.below(10) };
+        if i == 0 && d == 0 && nd > 1 {
+            s.push('1');
+        } else {
+            s.push((b'0' + d as u8) as char);
+        }
+    }
+    let _ = bits;
+    if rng.bool() && s != "0" { format!("-{}", s) } else { s }
+}
+
+fn gen_dec_operand(rng: &mut Rng, ty: &Ty, len: usize, mode: u8, nullp: u8) -> String {
+    let nullp = if nullp == 255 { draw_nullp(rng) } else { nullp };
+    let off = if rng.chance(1, 3) { *rng.pick(&[1usize, 7, 8, 9, 64, 65]) } else { 0 };
+    let density = 1 + rng.below(6);
+    let mut slots = vec![];
+    for _ in 0..len {
+        let null = match nullp {
+            1 => rng.chance(1, density + 1),
+            2 => true,
+            _ => false,
+        };
+        if null { slots.push(format!("n:{}", gen_int(rng, ty, 2))) } else { slots.push(gen_dec_item(rng, ty, mode)) }
+    }
+    format!("{}{}:{}", if nullp == 3 { 'N' } else { 'A' }, off, if slots.is_empty() { "-".to_string() } else { slots.join(",") })
+}
+
+const INT_TYS: [Ty; 8] = [Ty::I8, Ty::I16, Ty::I32, Ty::I64, Ty::U8, Ty::U16, Ty::U32, Ty::U64];
+const OPS: [&str; 8] = ["add", "sub", "mul", "div", "rem", "add_wrapping", "sub_wrapping", "mul_wrapping"];
+
+fn draw_nullp(rng: &mut Rng) -> u8 {
+    match rng.below(10) {
+        0..=3 => 0,
+        4..=7 => 1,
+        8 => 2,
+        _ => 3,
+    }
+}
+
+/// replace the garbage under every null slot by zero (oracle: answers must not change)
+fn zero_garbage(line: &str) -> String {
+    line.split(' ')
+        .map(|tok| {
+            if !(tok.starts_with('A') || tok.starts_with('N') || tok.starts_with("S:")) || !tok.contains("n:") {
+                return tok.to_string();
+            }
+            let (head, body) = tok.split_once(':').unwrap();
+            let body = body
+                .split(',')
+                .map(|s| match s.strip_prefix("n:") {
+                    Some(g) => format!("n:{}", g.split('/').map(|_| "0").collect::<Vec<_>>().join("/")),
+                    None => s.to_string(),
+                })
+                .collect::<Vec<_>>()
+                .join(",");
+            format!("{}:{}", head, body)
+        })
+        .collect::<Vec<_>>()
+        .join(" ")
+}
+
+fn operand_tags(l: &str) -> String {
+    let mut t = String::new();
+    if l.contains("n:") {
+        t.push_str(" nulls");
+    }
+    if l.contains(" S:") {
+        t.push_str(" scalar");
+    }
+    t
+}
+
+fn gen_arith_int(rng: &mut Rng) -> (String, String) {
+    let ty = *rng.pick(&INT_TYS);
+    // a different right-hand integer type is an invalid operation (no implicit coercion)
+    let rt = if rng.chance(1, 40) { *rng.pick(&INT_TYS) } else { ty };
+    let op = *rng.pick(&OPS);
+    let mode = rng.below(3) as u8;
+    let len = gen_len(rng);
+    let shape = rng.below(8);
+    let (l, r) = match shape {
+        0 | 1 => (gen_operand(rng, &ty, len, mode, 255, 2), gen_scalar(rng, &rt, mode)),
+        2 => (gen_scalar(rng, &ty, mode), gen_operand(rng, &rt, len, mode, 255, 2)),
+        3 if rng.chance(1, 6) => (gen_scalar(rng, &ty, mode), gen_scalar(rng, &rt, mode)),
+        4 if rng.chance(1, 10) => (gen_operand(rng, &ty, len, mode, 255, 2), gen_operand(rng, &rt, len + 1, mode, 255, 2)),
+        _ => (gen_operand(rng, &ty, len, mode, 255, 2), gen_operand(rng, &rt, len, mode, 255, 2)),
+    };
+    let line = format!("C12 arith {} {} {} {} {}", op, show_ty(&ty), l, show_ty(&rt), r);
+    let tags = format!("op:arith:{} ty:int{} mode:{}{}", op, if rt != ty { ":mixed" } else { "" }, mode, operand_tags(&line));
+    (line, tags)
+}
+
+fn gen_arith_dec(rng: &mut Rng) -> (String, String) {
+    let bits = *rng.pick(&[128u16, 128, 256, 256, 32, 64]);
+    let lt = gen_dec(rng, bits);
+    let rt = if rng.chance(1, 3) { lt } else { gen_dec(rng, bits) };
+    let op = *rng.pick(&OPS);
+    let mode = rng.below(3) as u8;
+    let len = *rng.pick(&[0usize, 1, 1, 2, 3, 4, 7, 8, 9, 17, 33, 65]);
+    let (l, r) = match rng.below(6) {
+        0 => {
+            let s = if rng.chance(1, 12) { format!("S:n:{}", gen_int(rng, &rt, 2)) } else { format!("S:{}", gen_dec_item(rng, &rt, mode)) };
+            (gen_dec_operand(rng, &lt, len, mode, 255), s)
+        }
+        1 => {
+            let s = format!("S:{}", gen_dec_item(rng, &lt, mode));
+            (s, gen_dec_operand(rng, &rt, len, mode, 255))
+        }
+        _ => (gen_dec_operand(rng, &lt, len, mode, 255), gen_dec_operand(rng, &rt, len, mode, 255)),
+    };
+    let line = format!("C12 arith {} {} {} {} {}", op, show_ty(&lt), l, show_ty(&rt), r);
+    let tags = format!("op:arith:{} ty:dec{} mode:{}{}", op, bits, mode, operand_tags(&line));
+    (line, tags)
+}
+
+fn gen_arith_temporal(rng: &mut Rng) -> (String, String) {
+    let u = rng.below(4) as u8;
+    let u2 = if rng.chance(1, 10) { rng.below(4) as u8 } else { u };
+    let ivs = [Ty::Iym, Ty::Idt, Ty::Imdn];
+    let (lt, rt, ops): (Ty, Ty, &[&str]) = match rng.below(12) {
+        0 => (Ty::Ts(u), Ty::Ts(u2), &["sub", "sub_wrapping", "add"]),
+        1 => (Ty::Ts(u), Ty::Dur(u2), &["add", "sub", "add_wrapping", "sub_wrapping", "mul"]),
+        2 => (Ty::Dur(u), Ty::Ts(u2), &["add", "add_wrapping", "sub"]),
+        3 => (Ty::Dur(u), Ty::Dur(u2), &["add", "sub", "add_wrapping", "sub_wrapping", "mul", "div"]),
+        4 => (Ty::Date32, Ty::Date32, &["sub", "sub_wrapping", "add"]),
+        5 => (Ty::Date64, Ty::Date64, &["sub", "sub_wrapping", "add"]),
+        6 | 7 => {
+            let t = *rng.pick(&ivs);
+            (t, t, &["add", "sub", "add_wrapping", "sub_wrapping", "mul"])
+        }
+        8 | 9 => (*rng.pick(&ivs), Ty::I64, &["mul", "mul", "mul", "mul_wrapping", "add"]),
+        10 => (Ty::I64, *rng.pick(&ivs), &["mul", "mul", "add"]),
+        _ => (*rng.pick(&[Ty::Date32, Ty::Date64, Ty::Dur(u), Ty::I32]), *rng.pick(&[Ty::Date64, Ty::Dur(u2), Ty::I64, Ty::Iym]), &["add", "sub", "mul"]),
+    };
+    let op = *rng.pick(ops);
+    let mode = rng.below(3) as u8;
+    let len = *rng.pick(&[0usize, 1, 2, 3, 5, 8, 9, 17, 65]);
+    let (l, r) = match rng.below(5) {
+        0 => (gen_operand(rng, &lt, len, mode, 255, 2), gen_scalar(rng, &rt, mode)),
+        1 => (gen_scalar(rng, &lt, mode), gen_operand(rng, &rt, len, mode, 255, 2)),
+        _ => (gen_operand(rng, &lt, len, mode, 255, 2), gen_operand(rng, &rt, len, mode, 255, 2)),
+    };
+    let line = format!("C12 arith {} {} {} {} {}", op, show_ty(&lt), l, show_ty(&rt), r);
+    let tags = format!("op:arith:{} ty:temporal:{}:{} mode:{}{}", op, show_ty(&lt).split(':').next().unwrap(), show_ty(&rt).split(':').next().unwrap(), mode, operand_tags(&line));
+    (line, tags)
+}
+
+fn gen_neg(rng: &mut Rng) -> (String, String) {
+    let ty = match rng.below(8) {
+        0..=2 => *rng.pick(&INT_TYS),
+        3 => {
+            let b = *rng.pick(&[32u16, 64, 128, 256]);
+            gen_dec(rng, b)
+        }
+        4 => Ty::Dur(rng.below(4) as u8),
+        5 => *rng.pick(&[Ty::Iym, Ty::Idt, Ty::Imdn]),
+        6 => *rng.pick(&[Ty::F32, Ty::F64]),
+        _ => *rng.pick(&[Ty::Date32, Ty::Ts(0), Ty::I8, Ty::I64]),
+    };
+    let w = rng.chance(1, 3);
+    let mode = rng.below(3) as u8;
+    let len = gen_len(rng);
+    let a = gen_operand(rng, &ty, len, mode, 255, 2);
+    let line = format!("C12 {} {} {}", if w { "neg_wrapping" } else { "neg" }, show_ty(&ty), a);
+    let tags = format!("op:{} ty:{} mode:{}{}", if w { "neg_wrapping" } else { "neg" }, show_ty(&ty).split(':').next().unwrap(), mode, operand_tags(&line));
+    (line, tags)
+}
+
+fn gen_agg(rng: &mut Rng) -> (String, String) {
+    let (ty, fns): (Ty, &[&str]) = match rng.below(10) {
+        0..=4 => (*rng.pick(&INT_TYS), &["sum", "sumc", "min", "max", "band", "bor", "bxor"]),
+        5 => (Ty::Dec(128, 38, 0), &["sum", "sumc", "min", "max", "band", "bor", "bxor"]),
+        6 => (Ty::Dec(256, 76, 0), &["sum", "sumc", "min", "max", "band", "bor", "bxor"]),
+        7 => (*rng.pick(&[Ty::Dec(32, 9, 0), Ty::Dec(64, 18, 0), Ty::Date32, Ty::Date64]), &["sum", "sumc", "min", "max"]),
+        _ => (*rng.pick(&[Ty::F32, Ty::F64]), &["min", "max"]),
+    };
+    let f = *rng.pick(fns);
+    let mode = rng.below(3) as u8;
+    let len = if rng.chance(1, 8) { 130 + rng.usize(130) } else { gen_len(rng) };
+    let a = gen_operand(rng, &ty, len, mode, 255, 2);
+    let line = format!("C12 agg {} {} {}", f, show_ty(&ty), a);
+    let tags = format!("op:agg:{} ty:{} mode:{}{}", f, show_ty(&ty).split(':').next().unwrap(), mode, operand_tags(&line));
+    (line, tags)
+}
+
+fn gen_boolarr(rng: &mut Rng, len: usize, nulls: bool) -> String {
+    let off = if rng.chance(1, 2) { *rng.pick(&[1usize, 3, 7, 8, 9, 63, 64, 65, 127]) } else { 0 };
+    let cls = rng.below(4);
+    let bits = |rng: &mut Rng, cls: u64| -> Vec<bool> {
+        (0..len)
+            .map(|_| match cls {
+                0 => true,
+                1 => false,
+                2 => rng.chance(1, 20),
+                _ => rng.bool(),
+            })
+            .collect()
+    };
+    let v = bits(rng, cls);
+    let ncls = *rng.pick(&[0u64, 3, 3, 2, 1]);
+    let n = if nulls { show_bits(&bits(rng, ncls)) } else { "-".to_string() };
+    format!("B{}:{}:{}", off, show_bits(&v), if len == 0 && nulls { "-".to_string() } else { n })
+}
+
+fn gen_bool(rng: &mut Rng) -> (String, String) {
+    let len = if rng.chance(1, 5) { 130 + rng.usize(200) } else { gen_len(rng) };
+    match rng.below(8) {
+        0 => {
+            let hn = rng.bool();
+            let a = gen_boolarr(rng, len, hn);
+            (format!("C12 bool not {}", a), format!("op:bool:not {}", if len > 0 { "nt" } else { "" }))
+        }
+        1 => {
+            let f = *rng.pick(&["and", "or", "min", "max"]);
+            let hn = rng.bool();
+            let a = gen_boolarr(rng, len, hn);
+            (format!("C12 bagg {} {}", f, a), format!("op:bagg:{} {}", f, if len > 0 { "nt" } else { "" }))
+        }
+        _ => {
+            let op = *rng.pick(&["and_kleene", "or_kleene", "and_kleene", "or_kleene", "and", "or", "and_not"]);
+            let (ln, rn) = (rng.chance(2, 3), rng.chance(2, 3));
+            let l = gen_boolarr(rng, len, ln);
+            let rlen = if rng.chance(1, 40) { len + 1 } else { len };
+            let r = gen_boolarr(rng, rlen, rn);
+            (
+                format!("C12 bool {} {} {}", op, l, r),
+                format!("op:bool:{} nulls:{}{} {}", op, ln as u8, rn as u8, if len > 0 { "nt" } else { "" }),
+            )
+        }
+    }
+}
+
+fn gen_i256_case(rng: &mut Rng) -> (String, String) {
+    let ms = ["wadd", "wsub", "wmul", "wdiv", "wrem", "cadd", "csub", "cmul", "cmul", "cmul", "cdiv", "crem", "cmp", "wneg", "cneg", "wabs", "cabs", "toi128", "tostr", "cpow", "wpow", "fromi128", "str"];
+    let m = *rng.pick(&ms);
+    let a = gen_i256(rng, 2);
+    let mut b = gen_i256(rng, 2);
+    let p = |x: i256| {
+        let (l, h) = x.to_parts();
+        format!("{} {}", l, h)
+    };
+    match m {
+        "str" => {
+            // decimal strings around the boundaries and malformed ones
+            let mut s = match rng.below(8) {
+                0 => show_i256v(a),
+                1 => format!("+{}", show_i256v(a).trim_start_matches('-')),
+                2 => {
+                    // beyond the range
+                    let base = "57896044618658097711785492504343953926634992332820282019728792003956564819968";
+                    let mut d = base.to_string();
+                    if rng.bool() {
+                        d.pop();
+                        d.push(*rng.pick(&['7', '8', '9']));
+                    } else if rng.bool() {
+                        d.push('0');
+                    }
+                    if rng.bool() { format!("-{}", d) } else { d }
+                }
+                3 => {
+                    let z = "0".repeat(rng.usize(60));
+                    let v = show_i256v(a);
+                    if let Some(r) = v.strip_prefix('-') { format!("-{}{}", z, r) } else { format!("{}{}", z, v) }
+                }
+                4 => {
+                    // lengths around the 38-digit chunking
+                    let n = *rng.pick(&[1usize, 37, 38, 39, 40, 75, 76, 77, 78]);
+                    let mut d: String = (0..n).map(|_| (b'0' + rng.below(10) as u8) as char).collect();
+                    if rng.bool() {
+                        d = format!("-{}", d);
+                    }
+                    d
+                }
+                5 => (*rng.pick(&["", "+", "-", "+-5", "--5", "-+5", "00", "-0", "+0", "1a", "a1", "1-2", "0x10"])).to_string(),
+                _ => {
+                    // corrupt one character of a valid long number
+                    let mut v: Vec<u8> = show_i256v(a).into_bytes();
+                    let i = rng.usize(v.len());
+                    v[i] = *rng.pick(&[b'+', b'-', b'a', b'9', b'0']);
+                    String::from_utf8(v).unwrap()
+                }
+            };
+            if s.contains(' ') {
+                s = "1".into();
+            }
+            (format!("C12 i256str ={}", s), "op:i256:fromstr nt".into())
+        }
+        "fromi128" => {
+            let v = gen_int(rng, &Ty::Dec(128, 38, 0), 2);
+            (format!("C12 i256 fromi128 {}", v), "op:i256:fromi128 nt".into())
+        }
+        "cpow" | "wpow" => {
+            let base = if rng.chance(2, 3) { i256::from_i128(rng.range(-12, 12) as i128) } else { a };
+            let e = if rng.chance(1, 2) { rng.below(10) } else { *rng.pick(&[0u64, 1, 2, 63, 64, 76, 77, 127, 128, 254, 255, 256, 257, 1000]) };
+            (format!("C12 i256 {} {} {}", m, p(base), e), format!("op:i256:{} nt", m))
+        }
+        "wneg" | "cneg" | "wabs" | "cabs" | "toi128" | "tostr" => (format!("C12 i256 {} {}", m, p(a)), format!("op:i256:{} nt", m)),
+        _ => {
+            if (m == "wdiv" || m == "wrem" || m == "cdiv" || m == "crem") && rng.chance(1, 2) {
+                // small divisors exercise the single-digit path of the long division
+                b = i256::from_i128(rng.range(-1000, 1000) as i128);
+            }
+            if m == "cmul" && rng.chance(1, 2) {
+                // products near ±2^255: a · b with b ≈ 2^255 / a
+                let small = i256::from_i128((rng.next_u64() >> rng.below(63)) as i128 * if rng.bool() { -1 } else { 1 });
+                if small != i256::ZERO {
+                    let q = if rng.bool() { i256::MAX } else { i256::MIN }.wrapping_div(small);
+                    let delta = i256::from_i128(rng.range(-2, 2) as i128);
+                    return (format!("C12 i256 cmul {} {}", p(small), p(q.wrapping_add(delta))), "op:i256:cmul nearmax nt".into());
+                }
+            }
+            if m == "cmp" && rng.chance(1, 4) {
+                b = a;
+            }
+            (format!("C12 i256 {} {} {}", m, p(a), p(b)), format!("op:i256:{} nt", m))
+        }
+    }
+}
+
+fn gen_case(rng: &mut Rng) -> (String, String) {
+    match rng.below(20) {
+        0..=4 => gen_arith_int(rng),
+        5..=7 => gen_arith_dec(rng),
+        8..=9 => gen_arith_temporal(rng),
+        10 => gen_neg(rng),
+        11..=13 => gen_agg(rng),
+        14..=15 => gen_bool(rng),
+        _ => gen_i256_case(rng),
+    }
+}
+
+/// exhaustive i8 / u8 operand pairs (a test of the tie, thorough tier): wrapping ops packed as
+/// array ∘ scalar, checked ops packed for the pairs expected to succeed and one length-1 case
+/// per pair expected to fail
+fn exhaustive8(sink: &mut Sink) {
+    for ty in [Ty::I8, Ty::U8] {
+        let (lo, hi) = bounds(&ty);
+        let all: Vec<i128> = (lo..=hi).collect();
+        let tys = show_ty(&ty);
+        for op in OPS {
+            for &a in &all {
+                let exact = |b: i128| -> Option<i128> {
+                    match op {
+                        "add" => Some(a + b),
+                        "sub" => Some(a - b),
+                        "mul" => Some(a * b),
+                        "div" => if b == 0 { None } else { Some(a / b) },
+                        "rem" => if b == 0 { None } else { Some(a % b) },
+                        _ => Some(0),
+                    }
+                };
+                let fits = |b: i128| exact(b).map(|v| v >= lo && v <= hi).unwrap_or(false);
+                let okb: Vec<String> = all.iter().filter(|b| fits(**b)).map(|b| b.to_string()).collect();
+                let line = format!("C12 arith {} {} S:{} {} A0:{}", op, tys, a, tys, show_list(&okb));
+                let ans = run_case(&line);
+                sink.case(line, ans, &format!("exhaustive8 op:arith:{} nt", op));
+                for &b in all.iter().filter(|b| !fits(**b)) {
+                    let line = format!("C12 arith {} {} A0:{} {} A0:{}", op, tys, a, tys, b);
+                    let ans = run_case(&line);
+                    sink.case(line, ans, &format!("exhaustive8 op:arith:{} nt", op));
+                }
+            }
+        }
+        let alls: Vec<String> = all.iter().map(|b| b.to_string()).collect();
+        for op in ["neg", "neg_wrapping"] {
+            for b in &alls {
+                let line = format!("C12 {} {} A0:{}", op, tys, b);
+                let ans = run_case(&line);
+                sink.case(line, ans, &format!("exhaustive8 op:{} nt", op));
+            }
+        }
+    }
+}
+
+fn nontrivial(line: &str, tags: &str) -> bool {
+    if tags.split(' ').any(|t| t == "nt") {
+        return true;
+    }
+    // array kernels: at least one non-null slot is processed
+    line.split(' ').skip(3).any(|tok| {
+        (tok.starts_with('A') || tok.starts_with('N') || tok.starts_with("S:"))
+            && tok.split_once(':').map(|(_, b)| b != "-" && b.split(',').any(|s| !s.starts_with("n:"))).unwrap_or(false)
+    })
+}
+
 fn main() {
     let args = parse_args();
-    let sink = Sink::new(&args.out);
+    if std::env::var("VERIF_LOUD").is_err() {
+        quiet_panics();
+    }
+    let mut sink = Sink::new(&args.out);
+    if args.mode == "replay" {
+        for line in read_cases(args.replay.as_ref().unwrap()) {
+            let a = run_case(&line);
+            sink.case(line, a, "replay");
+        }
+    } else {
+        let mut rng = Rng::new(args.seed ^ 0xC12);
+        let n = n_cases(&args, 14000, 400000);
+        for _ in 0..n {
+            let (line, mut tags) = gen_case(&mut rng);
+            let a = run_case(&line);
+            if nontrivial(&line, &tags) && !tags.split(' ').any(|t| t == "nt") {
+                tags.push_str(" nt");
+            }
+            // oracle on the implementation itself: the payload under null slots is irrelevant
+            if line.contains("n:") {
+                let z = zero_garbage(&line);
+                if z != line {
+                    let a2 = run_case(&z);
+                    if a2 != a {
+                        sink.oracle_failure(line.clone(), format!("answer depends on the payload under null slots: {} vs {} (payload zeroed)", a, a2), &tags);
+                    }
+                    sink.count("oracle:null-payload-independence");
+                }
+            }
+            sink.case(line, a, &tags);
+        }
+        if args.tier == "thorough" && args.cases.is_none() {
+            exhaustive8(&mut sink);
+        }
+    }
     sink.finish();
 }
